@@ -233,7 +233,18 @@ def _corrupt(draw):
     args = dict(base["args"])
     names = sorted(args)
     name = names[draw(st.integers(0, 10 ** 6)) % len(names)]
-    how = draw(st.sampled_from(["pyvalue", "falsy", "mutation", "mutation", "spelling", "dup-key"]))
+    how = draw(st.sampled_from(["pyvalue", "falsy", "mutation", "mutation", "spelling", "dup-key", "odd-role"]))
+    if how == "odd-role" and "delegations" in args and type(args.get("delegations")) is dict:
+        # a role whose NAME is awkward for whoever formats messages (format braces, percent signs, separators), carrying an
+        # invalid or a valid delegation: an argument error or faithful metadata, nothing else
+        name = "delegations"
+        args[name] = copy.deepcopy(args[name])
+        role = draw(st.sampled_from(["{}", "{channel}", "{0}", "{", "%s", "%(role)s", "%d", "a/b", "..", "\n", "role\x00"]))
+        args[name][role] = draw(st.sampled_from([{"pubkeys": "not a list", "threshold": 1}, {"pubkeys": [], "threshold": 0}, {"pubkeys": []},
+                                                 {"pubkeys": [keys.pub_hex(keys.POOL[0])], "threshold": 1}, None, 7]))
+        return {"which": base["which"], "args": args, "corrupted": name, "how": how, "base_args": dict(base["args"])}
+    if how == "odd-role":
+        how = "mutation"
     if how == "dup-key":
         # one key listed twice in a key list, the two occurrences anywhere (next to each other, first and last, around others)
         lists = []
